@@ -866,8 +866,9 @@ func (c *Ctx) akaRules(r *Report, prefix, mode string) {
 	}
 	c.akaScalingRule(r, prefix, um, setCases)
 	// a reference rule: claimed by the properties that speak about the RFC layout or about peers that are not
-	// this library (C05 decode side, C14, C15), not by the self round trip / stability properties
-	if mode == "decode" || mode == "full" || strings.HasPrefix(prefix, "C15.") {
+	// this library (C05 decode side, C14, C15) and by C12, whose canonical datagrams are built by an independent
+	// encoder; not by the self round trip C03
+	if mode == "decode" || mode == "full" || strings.HasPrefix(prefix, "C15.") || strings.HasPrefix(prefix, "C12.") {
 		c.akaReferenceClasses(r, prefix+"aka.reference-classes", um, dcases, setCases)
 	}
 	if mode == "roundtrip" || mode == "stability" || mode == "decode" {
@@ -1131,7 +1132,6 @@ func mergeOctetToks(ts []akaTok) []akaTok {
 	}
 	return out
 }
-
 
 // akaLenOrigin classifies where the length of a read buffer comes from: it follows the buffer to its
 // make([]byte, n) (through a field it was stored to) and n through arithmetic, conversions and φ-nodes.
